@@ -478,7 +478,10 @@ func (g *exprGen) genVector(t int64, depth int) expr {
 				k.param = float64([]int{1, 2, 3, 1, 2, 0, 5}[g.r.Intn(7)])
 			}
 			if g.r.Chance(60) || (g.avoid && k.op != "quantile") {
+				old := g.noMulti
+				g.noMulti = g.noMulti || (g.avoid && k.op != "quantile")
 				k.e = g.genSelector()
+				g.noMulti = old
 			} else {
 				k.e = g.genVector(t, depth-1)
 			}
